@@ -49,7 +49,7 @@ def cases(draw, name, tier):
     if name == "chain_from_iterable":
         case["params"]["outer"]["fl"] = draw(st.sampled_from(["agen", "aclass", "iter", "seq"]))
     for spec in case["fns"].values():
-        spec["fl"] = draw(st.sampled_from(["def", "async", "partial", "obj", "objaw", "falsyobj", "gencoro", "unhashobj", "classaw"]))
+        spec["fl"] = draw(st.sampled_from(["def", "async", "partial", "obj", "objaw", "falsyobj", "gencoro", "unhashobj", "classaw", "eagercoro"]))
     if tier == "quick":
         case["exc"] = draw(st.lists(st.sampled_from(EXC_NAMES), min_size=2, max_size=2, unique=True))
     else:
@@ -193,10 +193,17 @@ def classify(case):
 
 
 @st.composite
-def groupby_cases(draw, tier):
+def groupby_cases(draw, tier, forced_key=False):
     from . import c16
 
     case = draw(c16.histories(tier))
+    if forced_key:
+        # a key function is there, it is one of the less common kinds of callable, and the groupby is advanced
+        # again after its first advance (whatever that one ran into)
+        if case["key"] is None:
+            case["key"] = [["i", k] for k in draw(st.lists(st.integers(0, 2), min_size=2, max_size=4))]
+        case["keyfl"] = draw(st.sampled_from(["eagercoro", "eagercoro", "defcoro", "obj"]))
+        case["ops"] = [["gb"], ["gb"]] + case["ops"]
     case["exc"] = draw(st.lists(st.sampled_from(EXC_NAMES), min_size=2, max_size=2, unique=True)) \
         if tier == "quick" else draw(st.lists(st.sampled_from(EXC_NAMES), min_size=6, max_size=6, unique=True))
     return case
@@ -392,6 +399,8 @@ def shards(tier):
         Shard(f"close-faults-{i}", check_close_fault, strategy=close_fault_cases(tier), n=700,
               nontrivial=lambda c: False, thorough_mult=20) for i in range(4)
     ] + [
+        Shard("groupby-callables", check_groupby, strategy=groupby_cases(tier, True), n=150, nontrivial=lambda c: False,
+              thorough_mult=25),
         Shard("groupby", check_groupby, strategy=groupby_cases(tier), n=300, nontrivial=lambda c: False,
               thorough_mult=20),
     ] + [
